@@ -81,7 +81,7 @@ pub fn item_len<P: TLengthProtocol>(p: &mut P, it: &Item, flavor: u8) -> usize {
     }
 }
 
-fn write_item<P: TOutputProtocol>(p: &mut P, it: &Item, flavor: u8) -> Result<(), String> {
+pub fn write_item<P: TOutputProtocol>(p: &mut P, it: &Item, flavor: u8) -> Result<(), String> {
     match it {
         Item::Val(v) => write_val(p, v, flavor).map_err(|e| format!("{:?}", e)),
         Item::Msg { name, mtype, seq, body } => {
@@ -323,4 +323,82 @@ pub fn read_items(pk: PKind, data: &[u8], wants: &[Want], o: ReadOpts) -> ReadOu
         }),
     }
     out
+}
+
+/// Runs `$body` with `$p` bound to a sync reader of kind `$pk` over `$bytes: &mut Bytes`.
+#[macro_export]
+macro_rules! with_reader {
+    ($pk:expr, $bytes:expr, |$p:ident| $body:expr) => {
+        match $pk {
+            $crate::codec::PKind::Binary => {
+                let mut $p = ::pilota::thrift::binary::TBinaryProtocol::new($bytes, true);
+                $body
+            }
+            $crate::codec::PKind::BinaryLe => {
+                let mut $p = ::pilota::thrift::binary_le::TBinaryProtocol::new($bytes, true);
+                $body
+            }
+            $crate::codec::PKind::Compact => {
+                let mut $p = ::pilota::thrift::compact::TCompactInputProtocol::new($bytes);
+                $body
+            }
+            $crate::codec::PKind::Unsafe => {
+                let mut $p = unsafe { ::pilota::thrift::binary_unsafe::TBinaryUnsafeInputProtocol::new($bytes) };
+                $body
+            }
+        }
+    };
+}
+
+/// Runs `$body` with `$p` bound to an async reader of kind `$pk` (Binary, BinaryLe, Compact)
+/// over `$reader` (an `AsyncRead`).
+#[macro_export]
+macro_rules! with_async_reader {
+    ($pk:expr, $reader:expr, |$p:ident| $body:expr) => {
+        match $pk {
+            $crate::codec::PKind::Binary | $crate::codec::PKind::Unsafe => {
+                let mut $p = ::pilota::thrift::binary::TAsyncBinaryProtocol::new($reader);
+                $body
+            }
+            $crate::codec::PKind::BinaryLe => {
+                let mut $p = ::pilota::thrift::binary_le::TAsyncBinaryProtocol::new($reader);
+                $body
+            }
+            $crate::codec::PKind::Compact => {
+                let mut $p = ::pilota::thrift::compact::TAsyncCompactProtocol::new($reader);
+                $body
+            }
+        }
+    };
+}
+
+/// Runs `$body` with `$p` bound to a writer of kind `$pk` (checked protocols only) over
+/// `$buf: &mut BytesMut`.
+#[macro_export]
+macro_rules! with_writer {
+    ($pk:expr, $buf:expr, |$p:ident| $body:expr) => {
+        match $pk {
+            $crate::codec::PKind::Binary | $crate::codec::PKind::Unsafe => {
+                let mut $p = ::pilota::thrift::binary::TBinaryProtocol::new($buf, false);
+                $body
+            }
+            $crate::codec::PKind::BinaryLe => {
+                let mut $p = ::pilota::thrift::binary_le::TBinaryProtocol::new($buf, false);
+                $body
+            }
+            $crate::codec::PKind::Compact => {
+                let mut $p = ::pilota::thrift::compact::TCompactOutputProtocol::new($buf, false);
+                $body
+            }
+        }
+    };
+}
+
+/// Bytes consumed so far by a sync reader created over a buffer of `total` bytes.
+pub fn consumed_of<P: TInputProtocol<Buf = Bytes>>(p: &mut P, total: usize, unsafe_index: usize) -> usize {
+    total - p.buf().remaining() + unsafe_index
+}
+
+pub fn is_depth_limit(e: &pilota::thrift::ThriftException) -> bool {
+    matches!(e, pilota::thrift::ThriftException::Protocol(pe) if pe.kind() == pilota::thrift::ProtocolExceptionKind::DepthLimit)
 }
